@@ -629,4 +629,46 @@ example :
       = .error (.multipleValues "degree") := by
   decide +kernel
 
+/-! ## 8. structured specs (`lhs ~ a | b`: a `ModelSpecs`) -/
+
+/-- C04.8  **Every part of a structured fit carries the state of all its stateful calls.**
+`materializeParts` is `get_model_matrix` on several specs (pooled transform state, written back into
+every part).  The spec attached to each part of a fit is `Ready` on its own — every stateful call of
+its factors, NESTED ones included (`bs(center(x))`, `I(scale(z) * 2)`, `center(y) ~ poly(scale(x), 2)`),
+finds its recorded state — and replaying it alone on the training frame reproduces that part; so
+`replay_select`, `replay_rowwise`, `replay_names` and `replay_state_unchanged` apply to every part's
+spec as they are. -/
+theorem structured_parts_ready (env : Env) (specs : List Spec) (hnone : ∀ s ∈ specs, s.structure_ = none)
+    (hsc : StatesComplete env (poolOf specs)) (f : Frame) (rs : List (Spec × List Entry))
+    (h : materializeParts env specs f = .ok rs) :
+    ∀ r ∈ rs, Ready env r.1 ∧ StatesComplete env r.1.transformState ∧ materialize env r.1 f = .ok r ∧
+      replay env r.1 f = .ok r.2 := by
+  intro r hr
+  obtain ⟨h1, h2, h3⟩ := materializeParts_fit env specs hnone hsc f rs h r hr
+  exact ⟨h1, h2, h3, by simp only [replay, h3]⟩
+
+/-- the hypotheses hold for the fresh specs of a formula -/
+example (env : Env) (fs : List (List MTerm)) :
+    (∀ s ∈ fs.map (fun t => Spec.fresh t true none "none"), s.structure_ = none) ∧
+      StatesComplete env (poolOf (fs.map (fun t => Spec.fresh t true none "none"))) := by
+  refine ⟨fun s hs => ?_, ?_⟩
+  · obtain ⟨t, _, rfl⟩ := List.mem_map.1 hs; rfl
+  · have : poolOf (fs.map (fun t => Spec.fresh t true none "none")) = [] := by
+      unfold poolOf
+      induction fs with
+      | nil => rfl
+      | cons a r ih => simpa [List.foldl, Spec.fresh] using ih
+    rw [this]
+    intro _ _ _ _ _ h
+    simp [getKey] at h
+
+/-- non-vacuity: `center(x) ~ A` and `1 + center(x)` as two parts — both parts carry the state of `center(x)` -/
+example :
+    ((materializeParts demoEnv [Spec.fresh [["center(x)"]] true none "none", Spec.fresh [["1"], ["center(x)"], ["A"]] true none "none"]
+        demoFrame).toOption.map (fun rs => rs.map (fun r => (r.1.transformState.map (·.1), r.2.map (fun e => (e.name, e.col))))))
+    = some [(["center(x)"], [("center(x)", [-2, 0, 2, 0])]),
+            (["center(x)"], [("Intercept", [1, 1, 1, 1]), ("center(x)", [-2, 0, 2, 0]), ("A[T.b]", [0, 1, 0, 0]),
+                             ("A[T.c]", [0, 0, 1, 0])])] := by
+  decide +kernel
+
 end FormulaicVerif.Props.C04
